@@ -178,3 +178,145 @@ func FuzzServerHandshake(f *testing.F) {
 		stats.Case("fuzz-server/"+class, isBT)
 	})
 }
+
+// ---------------------------------------------------------------------------
+// The connecting side: storrent's ClientHandshake reads arbitrary bytes as the
+// other end's answer.
+
+type cliOutcome struct {
+	err   error
+	panic any
+	res   protocol.HandshakeResult
+	enc   bool
+	rest  []byte
+	wrote []byte
+}
+
+func (o cliOutcome) key(mse bool) string {
+	w := fmt.Sprintf("%x", o.wrote)
+	if mse {
+		w = "-" // the encrypted client's own bytes are random (key, pads)
+	}
+	return fmt.Sprintf("ok=%v panic=%v hash=%x id=%x caps=%v/%v/%v enc=%v rest=%x wrote=%s", o.err == nil, o.panic != nil, []byte(o.res.Hash), []byte(o.res.Id),
+		o.res.Dht, o.res.Fast, o.res.Extended, o.enc, o.rest, w)
+}
+
+func answerBytes(data []byte, plan segconn.Plan, mse bool, h, my hash.Hash, opt crypto.Options) (o cliOutcome) {
+	a, b := segconn.Pair(segconn.Plan{}, plan)
+	go func() {
+		a.Write(data)
+		a.CloseWrite()
+	}()
+	go io.Copy(io.Discard, a)
+	func() {
+		defer func() { o.panic = recover() }()
+		conn, res, init, err := protocol.ClientHandshake(b, mse, h, my, &opt)
+		o.err, o.res = err, res
+		if err == nil {
+			_, o.enc = conn.(*crypto.Conn)
+			conn.SetDeadline(time.Now().Add(20 * time.Second))
+			rest, _ := io.ReadAll(conn)
+			o.rest = append(append([]byte(nil), init...), rest...)
+		}
+	}()
+	o.wrote = b.Wire()
+	b.Close()
+	a.Close()
+	return o
+}
+
+func FuzzClientHandshake(f *testing.F) {
+	h, my := hash.Hash(gen.Fill(21, 20)), hash.Hash(gen.Fill(22, 20))
+	id := gen.Fill(23, 20)
+	valid := func(h []byte, resv [8]byte) []byte {
+		return append(append(append(append([]byte(nil), btHeader...), resv[:]...), h...), id...)
+	}
+	f.Add(valid(h, stReserved), uint16(0), uint8(0))
+	f.Add(append(valid(h, [8]byte{0xff, 0xff, 0xff, 0xff, 0xff, 0xff, 0xff, 0xff}), []byte("\x00\x00\x00\x01\x02rest")...), uint16(3), uint8(0))
+	f.Add(valid(gen.Fill(24, 20), stReserved), uint16(1), uint8(0))
+	f.Add(valid(h, stReserved)[:47], uint16(7), uint8(0))
+	f.Add(valid(h, stReserved)[:67], uint16(20), uint8(0))
+	f.Add(valid(h, stReserved), uint16(5), uint8(1))
+	f.Add(gen.Fill(25, 96), uint16(0), uint8(1))
+	f.Add(gen.Fill(26, 700), uint16(13), uint8(1))
+	f.Add(gen.Fill(27, 96+512+14), uint16(13), uint8(3))
+	f.Add([]byte{}, uint16(0), uint8(0))
+	f.Add([]byte{19}, uint16(0), uint8(1))
+	f.Fuzz(func(t *testing.T, data []byte, planBits uint16, optBits uint8) {
+		if len(data) > 4096 {
+			return
+		}
+		mse := optBits&1 != 0
+		opt := *crypto.DefaultOptions(true, optBits&2 != 0)
+		var plan segconn.Plan
+		switch k := int(planBits); {
+		case k == 0:
+		case k%4 == 1:
+			plan = segconn.Plan{Sizes: []int{1 + k/4%97}, Cycle: true}
+		case k%4 == 2:
+			plan = segconn.Plan{Sizes: []int{1 + k/4%97}}
+		case k%4 == 3:
+			plan = segconn.Plan{Sizes: []int{1 + k/4%5, 1 + k/20%61, 1 + k/1220%13}, Cycle: true, EOFWithData: true}
+		default:
+			plan = segconn.Plan{Coalesce: true}
+		}
+		var whole, cut cliOutcome
+		leak := sim.Bubble(t, func() {
+			whole = answerBytes(data, segconn.Plan{}, mse, h, my, opt)
+			cut = answerBytes(data, plan, mse, h, my, opt)
+		})
+		if leak != "" {
+			t.Fatalf("goroutines left behind: %s", leak)
+		}
+		for _, o := range []cliOutcome{whole, cut} {
+			if o.panic != nil {
+				t.Fatalf("ClientHandshake panicked on %x: %v", data, o.panic)
+			}
+		}
+		o := whole
+		class := "mse-garbage"
+		if !mse {
+			// ---- independent reading of a plaintext answer
+			mine := append(append(append(append([]byte(nil), btHeader...), stReserved[:]...), h...), my...)
+			if !bytes.Equal(o.wrote, mine) {
+				t.Fatalf("ClientHandshake (plain) wrote %x, want exactly its 68-byte handshake %x", o.wrote, mine)
+			}
+			class = "short"
+			wantOK := false
+			if len(data) >= 68 {
+				switch {
+				case !bytes.Equal(data[:20], btHeader):
+					class = "not-bt"
+				case !bytes.Equal(data[28:48], h):
+					class = "other-hash"
+				default:
+					class, wantOK = "ok", true
+				}
+			}
+			if (o.err == nil) != wantOK {
+				t.Fatalf("ClientHandshake on the answer %x (%s): err=%v, the reference reading says ok=%v", data, class, o.err, wantOK)
+			}
+			if wantOK {
+				r := data[20:28]
+				if !bytes.Equal(o.res.Hash, h) || !bytes.Equal(o.res.Id, data[48:68]) || o.res.Dht != (r[7]&1 != 0) || o.res.Fast != (r[7]&4 != 0) || o.res.Extended != (r[5]&0x10 != 0) || o.enc {
+					t.Fatalf("ClientHandshake on the answer %x: result %+v enc=%v differs from the bytes", data, o.res, o.enc)
+				}
+				if !bytes.Equal(o.rest, data[68:]) {
+					t.Fatalf("ClientHandshake on the answer %x: the bytes after the handshake read as %x, sent %x", data, o.rest, data[68:])
+				}
+			}
+		} else {
+			// nobody derived these bytes from the client's fresh key
+			if o.err == nil {
+				t.Fatalf("ClientHandshake (encrypted) accepted the answer %x (result %+v)", data, o.res)
+			}
+			if bytes.Contains(o.wrote, btHeader) {
+				t.Fatalf("ClientHandshake (encrypted) sent a BitTorrent handshake in clear")
+			}
+		}
+		if whole.key(mse) != cut.key(mse) {
+			t.Fatalf("ClientHandshake on the answer %x: outcome depends on how the bytes are cut into reads (%+v)\nwhole: %s\ncut:   %s", data, plan, whole.key(mse), cut.key(mse))
+		}
+		stats.Case("fuzz-client/"+class, class == "ok" || len(data) >= 96)
+	})
+}
